@@ -1,6 +1,7 @@
 """C10: weight caching in linear transforms is transparent over every history."""
 import copy
 import itertools
+import math
 
 import torch
 
@@ -273,6 +274,58 @@ def histories(tier, seed):
     return hs
 
 
+def many_features(ck, seed):
+    """the same question for wide layers, whose determinant leaves the floating-point range while its logarithm is ordinary (64 and 96
+    features with diagonals around 0.13 and 3 in float32, 128 features in float64): with caching on, whichever direction fills the
+    cache, outputs and log-abs-dets equal the uncached ones"""
+    from nflows.transforms import lu, linear, qr, svd, conv
+    kinds = (("LULinear", lambda D: lu.LULinear(D, using_cache=True, identity_init=False)),
+             ("NaiveLinear", lambda D: linear.NaiveLinear(D, using_cache=True)),
+             ("QRLinear", lambda D: qr.QRLinear(D, num_householder=3, using_cache=True)),
+             ("SVDLinear", lambda D: svd.SVDLinear(D, num_householder=4, using_cache=True, identity_init=False)))
+    for kname, mk in kinds:
+        for D, diag, dtype in ((64, 0.13, torch.float32), (96, 3.0, torch.float32), (128, 0.02, torch.float64)):
+            for first in ("forward", "inverse"):
+                torch.manual_seed(seed % 100000 + D)
+                t = mk(D)
+                with torch.no_grad():
+                    for n_, p_ in t.named_parameters():
+                        if "unconstrained_upper_diag" in n_ or "unconstrained_diagonal" in n_:
+                            # softplus(u) + eps = diag
+                            p_.copy_(torch.log(torch.expm1(torch.full_like(p_, max(diag - 1e-3, 1e-4)))))
+                        elif "log_upper_diag" in n_:
+                            p_.fill_(math.log(diag))
+                        elif "_weight" in n_ and kname == "NaiveLinear":
+                            p_.mul_(diag)
+                        elif "lower_entries" in n_ or "upper_entries" in n_:
+                            p_.copy_(torch.randn(p_.shape) * 0.05)
+                t = t.to(dtype).eval()
+                x = torch.randn(3, D, dtype=dtype)
+                ck.case(("wide", kname, D, first), nontrivial=True)
+                case = {"search": "wide-layer", "class": kname, "features": D, "diagonal": diag, "dtype": str(dtype), "first": first, "seed": seed}
+                with torch.no_grad():
+                    un_f, un_i = attempt(t.forward_no_cache, x), attempt(t.inverse_no_cache, x)
+                    order = ("forward", "inverse") if first == "forward" else ("inverse", "forward")
+                    got = {}
+                    for d_ in order:
+                        got[d_] = attempt(getattr(t, d_), x)
+                if un_f[0] != "ok" or un_i[0] != "ok" or not bool(torch.isfinite(un_f[1][1]).all()) or not bool(torch.isfinite(un_i[1][0]).all()):
+                    ck.count("wide-layer: uncached reference not finite")
+                    continue
+                for d_, ref in (("forward", un_f), ("inverse", un_i)):
+                    g_ = got[d_]
+                    if g_[0] != "ok":
+                        ck.finding("cache:raises", "%s(%d) cached %s raises: %s" % (kname, D, d_, g_[1:]), case)
+                        break
+                    tol_ = 1e-3 if dtype == torch.float32 else 1e-8
+                    el = float((g_[1][1] - ref[1][1]).abs().max())
+                    eo = float((g_[1][0] - ref[1][0]).abs().max()) / (1 + float(ref[1][0].abs().max()))
+                    if not (el <= tol_ * (1 + float(ref[1][1].abs().max())) and eo <= tol_ * 50):
+                        ck.finding("cache:stale", "%s with %d features (%s, diagonal about %g), %s first: the cached %s returns log-abs-det %r, the uncached one %r "
+                                   "(outputs differ by %.3g relative)" % (kname, D, dtype, diag, first, d_, float(g_[1][1][0]), float(ref[1][1][0]), eo), case)
+                        break
+
+
 def run(tier, seed):
     ck = Check("C10", tier, seed, areas=["cache"], gen_groups=["LinearCache", "LinearFamily"])
     ck.rule = ("histories over {train, eval, use_cache(on/off), forward, inverse, forward/inverse+backward, optimiser "
@@ -299,6 +352,7 @@ def run(tier, seed):
                 ck.count("len=%d" % min(len(ops), 15))
                 ck.count(name)
                 run_history(ck, drv, name, ctor, image, u, ops, seed + hi, mm)
+    many_features(ck, seed)
     ck.sample({"class": "LULinear", "history": [OPS[o] for o in hs[0]],
                "model_rows(obs,ref,flags,ver,dtype)": (drv.call("run", z(1), Z(hs[0]))[0] if drv else None)})
     ck.sample({"history": [OPS[o] for o in hs[min(20, len(hs) - 1)]]})
